@@ -385,6 +385,29 @@ class Facts:
         cs = [self.fns[c] for c in self.callers().get(base.id, ()) if c != base.id and re.sub(r'::\{closure#\d+\}', '', self.fns[c].qname) != q]
         return bool(cs) and all(self.reached_only_through(c, allowed, depth + 1) for c in cs)
 
+    def family(self, fn, depth=2, _seen=None):
+        """`fn`, its closures, and the private (non-pub, non-trait) helpers of its own module / impl that it calls, `depth`
+        levels deep, each with their closures: the functions an extract-method refactoring may spread a body over.
+        For census-type rules (which callees, which constructors, which HIR constructs)."""
+        seen = _seen if _seen is not None else {}
+        if fn.id in seen:
+            return list(seen.values())
+        seen[fn.id] = fn
+        for cl in self.closures_of(fn):
+            self.family(cl, depth, seen)
+        if depth > 0 and fn.mir:
+            mod = fn.qname.rsplit('::', 1)[0]
+            scope = mod.rsplit('::', 1)[0] if fn.kind == 'AssocFn' or fn.kind == 'Closure' else mod
+            for b, t in fn.calls():
+                info = callee_of(t)
+                g = self.fns.get((info or {}).get('resolved_id') or (info or {}).get('id')) if info else None
+                if g is None or not g.mir or g.id in seen or g.kind == 'Closure' or g.d.get('vis') == 'Public' or g.d.get('impl_trait'):
+                    continue
+                if not g.qname.startswith(scope):
+                    continue
+                self.family(g, depth - 1, seen)
+        return list(seen.values())
+
     def inlined(self, fn, depth=2, _stack=(), keep=()):
         """`fn` with the bodies of the private helpers of its own module spliced into its MIR (call -> parameter
         assignments + goto entry; return -> assignment of the result + goto continuation), `depth` levels deep.
